@@ -189,20 +189,41 @@ struct ChainObs {
     listing: Vec<u32>,
     /// per plugin pass: (name, plugins constructed, messages forwarded, messages with a payload text set by a plugin)
     fx: Vec<(String, usize, usize, usize)>,
+    /// accumulated-state reach of the input: distinct ECUs, max distinct APIDs below one ECU, max distinct CTIDs below
+    /// one (ECU, APID), largest message index, mcnt wrapped (> 256 messages of one ECU)
+    reach: (usize, usize, usize, u32, bool),
 }
 
-fn run_chain(ext: &str, bytes: &[u8], with_ref: bool, model: bool) -> ChainObs {
+fn run_chain(ext: &str, bytes: &[u8], with_ref: bool, model: bool, start_index: u32) -> ChainObs {
     let mut fails = vec![];
-    let mut obs = ChainObs { fails: vec![], nmsgs: 0, nlcs: 0, out_bytes: 0, specs: vec![], deliveries: vec![], table: vec![], listing: vec![], fx: vec![] };
+    let mut obs = ChainObs { fails: vec![], nmsgs: 0, nlcs: 0, out_bytes: 0, specs: vec![], deliveries: vec![], table: vec![], listing: vec![], fx: vec![], reach: (0, 0, 0, 0, false) };
     let ns = adlt::utils::get_new_namespace();
     // ---- read
     let msgs: Vec<DltMessage> = stage("read", &mut fails, || {
         let rd = LowMarkBufReader::new(std::io::Cursor::new(bytes.to_vec()), 512 * 1024, DLT_MAX_STORAGE_MSG_SIZE + 4);
-        let it = adlt::utils::get_dlt_message_iterator(ext, 0, rd, ns, if with_ref { Some(REF_US) } else { None }, Some(MODIFIED_US), None);
+        let it = adlt::utils::get_dlt_message_iterator(ext, start_index, rd, ns, if with_ref { Some(REF_US) } else { None }, Some(MODIFIED_US), None);
         it.take(MAX_MSGS).collect()
     })
     .unwrap_or_default();
     obs.nmsgs = msgs.len();
+    {
+        use std::collections::{HashMap, HashSet};
+        let mut per_ecu: HashMap<u32, (usize, HashMap<u32, HashSet<u32>>)> = HashMap::new();
+        for m in &msgs {
+            let e = per_ecu.entry(ecu_u32(&m.ecu)).or_default();
+            e.0 += 1;
+            if let (Some(a), Some(c)) = (m.apid(), m.ctid()) {
+                e.1.entry(ecu_u32(a)).or_default().insert(ecu_u32(c));
+            }
+        }
+        obs.reach = (
+            per_ecu.len(),
+            per_ecu.values().map(|e| e.1.len()).max().unwrap_or(0),
+            per_ecu.values().flat_map(|e| e.1.values().map(|c| c.len())).max().unwrap_or(0),
+            msgs.iter().map(|m| m.index).max().unwrap_or(0),
+            per_ecu.values().any(|e| e.0 > 256),
+        );
+    }
     if model {
         obs.specs = msgs.iter().map(|m| (m.index, ecu_u32(&m.ecu), m.reception_time_us, m.timestamp_us(), m.standard_header.has_timestamp(), m.is_ctrl_request())).collect();
     }
@@ -621,10 +642,139 @@ fn gen_lcspec(seed: u64, small: bool) -> Vec<u8> {
     out
 }
 
+/// k-th id: four characters derived from k (base 36), so that thousands of distinct ids are cheap
+fn id_of(prefix: u8, k: u64) -> [u8; 4] {
+    const A: &[u8; 36] = b"0123456789ABCDEFGHIJKLMNOPQRSTUVWXYZ";
+    [prefix, A[(k / 1296 % 36) as usize], A[(k / 36 % 36) as usize], A[(k % 36) as usize]]
+}
+/// sizes around the capacity-dependent boundaries of the stateful components (3-digit pseudonyms: 999 | 1000)
+const HIST_NS: [u64; 9] = [1000, 999, 1001, 1300, 998, 2600, 1002, 300, 1999];
+pub const HIST_KINDS: [&str; 10] = ["anon_ctid", "anon_apid", "anon_ecu", "anon_mix", "ft", "someip", "someip_big", "nv", "rewrite", "lc_index"];
+/// histories that ACCUMULATE state in the stateful components: the k-th id is derived from k.
+/// seed selects the size (HIST_NS[seed % 9]) and minor details.
+fn gen_hist(kind: &str, seed: u64) -> Vec<u8> {
+    let mut rng = Rng::new(seed ^ 0x4157);
+    let n = HIST_NS[(seed % HIST_NS.len() as u64) as usize];
+    let mut out = vec![];
+    let t_cell = std::cell::Cell::new(1_700_000_000_000_000u64);
+    let mut i: u64 = 0;
+    // one verbose log message with a one-string payload
+    let mut emit = |out: &mut Vec<u8>, ecu: &[u8; 4], vmm: u8, noar: u8, apid: &[u8; 4], ctid: &[u8; 4], payload: Vec<u8>, be: bool, ext: bool| {
+        t_cell.set(t_cell.get() + 1000);
+        let t_us = t_cell.get();
+        let mut m = GM::new(ecu, (t_us / 1_000_000) as u32, (t_us % 1_000_000) as u32, ((t_us - 1_699_999_000_000_000) / 100) as u32);
+        m.mcnt = i as u8;
+        i += 1;
+        if be { m.htyp |= 2; }
+        if ext { m = m.ext(vmm, noar, apid, ctid); }
+        m.payload = payload;
+        m.enc(false, out);
+    };
+    let text = |be: bool, t: &[u8]| { let mut p = vec![]; a_str(&mut p, t, be, false); p };
+    let unum = |p: &mut Vec<u8>, v: u64| a_num(p, 0x40, 3, v, false);
+    match kind {
+        "anon_ctid" => {
+            // one ECU, one APID, n distinct CTIDs; then every id again (table look-ups), some messages without extended header
+            for k in 0..n { emit(&mut out, b"ECU1", VERB_INFO, 1, b"APID", &id_of(b'C', k), text(false, b"x"), false, true); }
+            for k in 0..n.min(300) { emit(&mut out, b"ECU1", VERB_INFO, 1, b"APID", &id_of(b'C', (k * 7) % n), text(false, b"y"), false, k % 9 != 0); }
+        }
+        "anon_apid" => {
+            for k in 0..n { emit(&mut out, b"ECU1", VERB_INFO, 1, &id_of(b'A', k), b"CTID", text(false, b"x"), false, true); }
+            for k in 0..n.min(300) { emit(&mut out, b"ECU1", VERB_INFO, 1, &id_of(b'A', (k * 7) % n), &id_of(b'C', k % 5), text(false, b"y"), false, true); }
+        }
+        "anon_ecu" => {
+            // also: lifecycle detection, statistics and the sort with that many ECUs
+            for k in 0..n { emit(&mut out, &id_of(b'E', k), VERB_INFO, 1, b"APID", b"CTID", text(false, b"x"), false, k % 3 != 0); }
+            for k in 0..n.min(300) { emit(&mut out, &id_of(b'E', (k * 7) % n), VERB_INFO, 1, b"APID", b"CTID", text(false, b"y"), false, true); }
+        }
+        "anon_mix" => {
+            // many ECUs x APIDs x CTIDs, and one (ECU, APID) that crosses the boundary
+            for k in 0..n { emit(&mut out, &id_of(b'E', k % 37), VERB_INFO, 1, &id_of(b'A', k % 31), &id_of(b'C', k % 29), text(k % 2 == 0, b"x"), k % 2 == 0, true); }
+            for k in 0..n { emit(&mut out, b"E000", VERB_INFO, 1, b"A000", &id_of(b'D', k), text(false, b"z"), false, true); }
+            // control responses (get log info / sw version are rewritten by the plugin)
+            for k in 0..20u64 { let mut p = u32b(if k % 2 == 0 { 0x13 } else { 3 }, false).to_vec(); p.extend_from_slice(&[0, 2, 0, 0, 0, b'v', b'1']); emit(&mut out, &id_of(b'E', k), CTRL_RESP, 1, b"APID", b"CTID", p, false, true); }
+        }
+        "ft" => {
+            // (the plugin rebuilds its whole state tree on every change: cost grows with the square of the number of
+            // transfers, ~26 s for 1000 in a debug build -- sizes are chosen accordingly, 1000 only in the thorough tier)
+            let n = [300u64, 120, 520, 1000][(seed % 4) as usize];
+            // n transfers open at the same time: announcement, first package for each, second package / end for some
+            let ann = |p: &mut Vec<u8>, serial: u64| {
+                a_str(p, b"FLST", false, false); unum(p, serial); a_str(p, format!("f{}.bin", serial).as_bytes(), false, false); unum(p, 16);
+                a_str(p, b"date", false, false); unum(p, 2); a_num(p, 0x40, 2, 8, false); a_str(p, b"FLST", false, false);
+            };
+            for k in 0..n { let mut p = vec![]; ann(&mut p, k); emit(&mut out, b"ECU1", VERB_INFO, 8, b"SYS\0", b"FILE", p, false, true); }
+            for pkg in 1..=2u64 {
+                for k in 0..n {
+                    if pkg == 2 && k % 3 == 0 { continue }
+                    let mut p = vec![]; a_str(&mut p, b"FLDA", false, false); unum(&mut p, k); unum(&mut p, pkg); a_raw(&mut p, &[k as u8; 8], false); a_str(&mut p, b"FLDA", false, false);
+                    emit(&mut out, b"ECU1", VERB_INFO, 5, b"SYS\0", b"FILE", p, false, true);
+                }
+            }
+            for k in 0..n { if k % 2 == 0 { let mut p = vec![]; a_str(&mut p, b"FLFI", false, false); unum(&mut p, k); a_str(&mut p, b"FLFI", false, false); emit(&mut out, b"ECU1", VERB_INFO, 3, b"SYS\0", b"FILE", p, false, true); } }
+        }
+        "someip" | "someip_big" => {
+            // n segmented messages open at the same time (NWST without NWEN), chunks for all, ends for some
+            let big = kind == "someip_big";
+            let n = if big { n.min(120) } else { n };
+            let (chunk, nr): (u16, u16) = if big { (65_000, 15) } else { (8, 3) };
+            let vmm = 1 | (2 << 1) | (1 << 4);
+            for k in 0..n {
+                let mut p = vec![]; a_str(&mut p, b"NWST", false, false); a_raw(&mut p, &(k as u32).to_le_bytes(), false);
+                a_raw(&mut p, &[10, 0, 0, 1, 0, 80, 10, 0, 0, 2, 0, 81][..if k % 2 == 0 { 12 } else { 10 }], false); a_raw(&mut p, &[0; 4], false);
+                a_raw(&mut p, &nr.to_le_bytes(), false); a_raw(&mut p, &chunk.to_le_bytes(), false);
+                emit(&mut out, b"ECU1", vmm, 6, b"APID", b"TC\0\0", p, false, true);
+            }
+            for c in 0..2u16 {
+                for k in 0..n {
+                    let mut p = vec![]; a_str(&mut p, b"NWCH", false, false); a_raw(&mut p, &(k as u32).to_le_bytes(), false); a_raw(&mut p, &c.to_le_bytes(), false);
+                    let mut d = vec![0xfau8, 0x62, 0x03, 0xe8, 0, 0, 0, 16, 0, 0, 0, 1, 1, 1, 0, 0];
+                    d.truncate(8);
+                    a_raw(&mut p, &d, false);
+                    emit(&mut out, b"ECU1", vmm, 4, b"APID", b"TC\0\0", p, false, true);
+                }
+            }
+            for k in 0..n { if k % 2 == 1 { let mut p = vec![]; a_str(&mut p, b"NWEN", false, false); a_raw(&mut p, &(k as u32).to_le_bytes(), false); emit(&mut out, b"ECU1", vmm, 2, b"APID", b"TC\0\0", p, false, true); } }
+        }
+        "nv" => {
+            // non verbose: the three frames of the fibex for ECU Ecu1 between n other message ids and n other ECUs
+            for k in 0..n {
+                let id = match k % 4 { 0 => 805312382u32, 1 => 805834673, 2 => 800000000, _ => k as u32 };
+                let mut p = u32b(id, k % 2 == 0).to_vec();
+                p.extend_from_slice(&[k as u8; 12]);
+                let ecu = if k % 3 == 0 { id_of(b'N', k) } else { *b"Ecu1" };
+                emit(&mut out, &ecu, 0x40, 2, &id_of(b'A', k % 50), &id_of(b'C', k % 70), p, k % 2 == 0, k % 5 != 0);
+            }
+        }
+        "rewrite" => {
+            for k in 0..n {
+                let ts = match k % 50 { 0 => "99999999999.999999".to_string(), 1 => "0.0".to_string(), _ => format!("{}.{:06}", k, (k * 7919) % 1_000_000) };
+                let t = format!("2024/01/01 10:00:00.000000 {} text {}", ts, k);
+                let mut p = vec![]; a_str(&mut p, t.as_bytes(), false, true);
+                emit(&mut out, &id_of(b'E', k % 3), VERB_INFO, 1, b"SYS\0", b"JOUR", p, false, true);
+            }
+        }
+        _ => {
+            // "lc_index": more than 100 000 small messages so that the detector's periodic refresh (every 100 000
+            // message indices) runs; a reboot of one ECU in the middle
+            let total = 100_000 + n * 10;
+            for k in 0..total {
+                if k == total / 2 { t_cell.set(t_cell.get() + 600_000_000); }
+                emit(&mut out, &id_of(b'E', k % 3), 0, 0, b"APID", b"CTID", vec![], false, false);
+            }
+        }
+    }
+    let _ = rng.next();
+    out
+}
+
 /// generated traces; `g` selects the flavour.  Returns the byte stream.
 fn gen_dlt(g: &str, seed: u64, small: bool) -> Vec<u8> {
     if g == "lcspec" {
         return gen_lcspec(seed, small);
+    }
+    if let Some(kind) = g.strip_prefix("hist_") {
+        return gen_hist(kind, seed);
     }
     let mut rng = Rng::new(seed ^ 0xC03);
     let mut out = vec![];
@@ -1295,7 +1445,7 @@ fn worker_main(argv: &[String]) {
         let tiny = gen_dlt("lc", 1, true);
         for (ext, b) in [("dlt", &b""[..]), ("asc", b""), ("txt", b""), ("log", b""), ("dlt", &tiny[..])] {
             guard_start(alloc_limit(0));
-            let o = run_chain(ext, b, false, false);
+            let o = run_chain(ext, b, false, false, 0);
             let (_, big) = guard_stop();
             sizes.extend(big);
             if !o.fails.is_empty() {
@@ -1318,11 +1468,11 @@ fn worker_main(argv: &[String]) {
         let model = r["model"].as_bool().unwrap_or(false);
         guard_start(alloc_limit(bytes.len()));
         let t0 = std::time::Instant::now();
-        let o = run_chain(&ext, &bytes, r["ref"].as_bool().unwrap_or(false), model);
+        let o = run_chain(&ext, &bytes, r["ref"].as_bool().unwrap_or(false), model, r["start"].as_u64().unwrap_or(0) as u32);
         let (maxreq, big) = guard_stop();
         let big: Vec<usize> = big.into_iter().filter(|s| !allow.contains(s)).collect();
         let v = json!({"fails": o.fails, "nmsgs": o.nmsgs, "nlcs": o.nlcs, "len": bytes.len(), "out": o.out_bytes, "maxreq": maxreq, "big": big, "ms": t0.elapsed().as_millis() as u64,
-            "fx": o.fx, "specs": o.specs, "deliv": o.deliveries, "table": o.table, "listing": o.listing});
+            "fx": o.fx, "reach": o.reach, "specs": o.specs, "deliv": o.deliveries, "table": o.table, "listing": o.listing});
         {
             let mut so = out.lock();
             writeln!(so, "DONE {} {}", idx, v).unwrap();
@@ -1612,6 +1762,20 @@ fn build_cases(tier: &str, seed: u64, count: Option<u64>) -> Vec<(Value, String)
             v.push((r, tag));
         }
     }
+    // accumulated state: histories of 1 000 - 3 000 messages whose k-th id is derived from k (sizes around the
+    // 999 | 1000 boundary of the 3-digit pseudonyms), many concurrent transfers / segments, > 100 000 indices
+    let hist_rounds: u64 = match tier { "quick" => 1, "search" => 1, _ => 3 };
+    for (ki, kind) in HIST_KINDS.iter().enumerate() {
+        let variants: u64 = if *kind == "lc_index" { hist_rounds } else if kind.starts_with("anon") { 7 * hist_rounds } else if *kind == "ft" { if hist_rounds > 1 { 4 } else { 3 } } else { 3 * hist_rounds };
+        for j in 0..variants {
+            let mut r = r_gen("dlt", &format!("hist_{}", kind), j + 9 * (seed % 5) * (j / 9), false);
+            // message index: from 0, just below / above the refresh period, in the upper half, close to (but 150 000 below) u32::MAX
+            let start = [0u64, 0, 99_990, 100_001, 1 << 31, u32::MAX as u64 - 150_000][((j + ki as u64) % 6) as usize];
+            r["start"] = json!(start);
+            if hist_rounds > 1 && j % 5 == 4 { r = with_mut(r, &format!("field{}", rng.below(N_FIELD_KINDS)), rng.next()); }
+            v.push((r, format!("hist:{}", kind)));
+        }
+    }
     // grammar-based text
     let n_text = count.unwrap_or(40 * scale);
     for ext in ["asc", "txt", "log"] {
@@ -1876,9 +2040,33 @@ fn main() {
         max_ms = max_ms.max(o["ms"].as_u64().unwrap_or(0));
         tags.push(match nm { 0 => "msgs:0", 1..=9 => "msgs:1-9", 10..=999 => "msgs:10-999", _ => "msgs:1000+" }.to_string());
         tags.push(match o["nlcs"].as_u64().unwrap_or(0) { 0 => "lcs:0", 1 => "lcs:1", 2..=5 => "lcs:2-5", _ => "lcs:6+" }.to_string());
+        if let Some(re) = o["reach"].as_array() {
+            let g = |i: usize| re[i].as_u64().unwrap_or(0);
+            for (name, nn) in [("ecus", g(0)), ("apids", g(1)), ("ctids", g(2))] {
+                if nn == 999 { tags.push(format!("reach:anon_{}_eq_999", name)); }
+                if nn == 1000 { tags.push(format!("reach:anon_{}_eq_1000", name)); }
+                if nn > 1000 { tags.push(format!("reach:anon_{}_gt_1000", name)); }
+                if nn >= 1000 { tags.push(format!("reach:anon_{}_ge_1000", name)); }
+            }
+            if g(0) >= 1000 { tags.push("reach:lc_ecus_ge_1000".into()); }
+            if nm >= 100_000 { tags.push("reach:lc_msgs_ge_100000".into()); }
+            if g(3) >= 100_000 { tags.push("reach:msg_index_ge_100000".into()); }
+            if g(3) >= (1u64 << 31) { tags.push("reach:msg_index_ge_2pow31".into()); }
+            if re[4].as_bool().unwrap_or(false) { tags.push("reach:mcnt_wrapped".into()); }
+        }
+        if let Some(fx) = o["fx"].as_array() {
+            if let Some(f) = fx.iter().find(|f| f[0] == "ft") {
+                let t = f[3].as_u64().unwrap_or(0);
+                if t >= 256 { tags.push("reach:ft_transfers_ge_256".into()); }
+                if t >= 1000 { tags.push("reach:ft_transfers_ge_1000".into()); }
+            }
+        }
+        if let Some(g) = r["base"]["g"].as_str() {
+            if g.starts_with("hist_someip") { tags.push(format!("reach:{}_open_segments_n{}", g, HIST_NS[(r["base"]["seed"].as_u64().unwrap_or(0) % 9) as usize])); }
+        }
         if !ok { tags.push("FAIL".into()); }
         let obs = obs_of(&coq, ok, o);
-        let key = format!("{:x}", { let mut h = 0xcbf29ce484222325u64; for b in &bytes { h = (h ^ *b as u64).wrapping_mul(0x100000001b3); } h ^ ((bytes.len() as u64) << 48) ^ ext.len() as u64 ^ (r["ref"].as_bool().unwrap_or(false) as u64) });
+        let key = format!("{:x}", { let mut h = 0xcbf29ce484222325u64; for b in &bytes { h = (h ^ *b as u64).wrapping_mul(0x100000001b3); } h ^ ((bytes.len() as u64) << 48) ^ ext.len() as u64 ^ (r["ref"].as_bool().unwrap_or(false) as u64) ^ (r["start"].as_u64().unwrap_or(0) << 20) });
         sink.push(Case { id: i as u64, input_coq: coq, input_json: r.clone(), obs, verdict, classes: vec![], tags, nontrivial: nm >= 2, key });
     }
     if a.replay.is_none() {
